@@ -1120,10 +1120,9 @@ Lemma via_handle_disabled k : via_handle k = true -> init_enabled k = false.
 Proof. destruct k; cbn; congruence. Qed.
 
 Lemma model_holds E k :
-  wf_b (Case E k (model E k)) = true -> known_b (Case E k (model E k)) = false ->
-  holds_b (Case E k (model E k)) = true.
+  wf_k E k = true -> known_k E k = false -> holds1 E k (model E k) = true.
 Proof.
-  unfold wf_b, known_b, holds_b. cbn [c_env c_load c_obs]. intros Hwf Hk.
+  unfold wf_k, known_k, holds1. intros Hwf Hk.
   apply andb_true_iff in Hwf as [Hwf Hids]. apply andb_true_iff in Hwf as [Hwf Hnd].
   apply andb_true_iff in Hwf as [Hwf Hst]. apply andb_true_iff in Hwf as [Hns _].
   assert (OK : Forall (step_ok E) (steps_of k)).
@@ -1156,10 +1155,42 @@ Proof.
   apply cbs_ok_model. exact (proj1 (spec_items_insts E _ _ _ _ I1)).
 Qed.
 
+Lemma forall2b_impl {A B} (f g : A -> B -> bool) :
+  (forall x y, f x y = true -> g x y = true) ->
+  forall l m, forall2b f l m = true -> forall2b g l m = true.
+Proof.
+  intros H. induction l as [|x l IH]; intros [|y m] F; cbn [forall2b] in *; try discriminate;
+    [reflexivity|].
+  apply andb_true_iff in F as [F1 F2]. now rewrite (H _ _ F1), (IH _ F2).
+Qed.
+
 Lemma accepts_holds c : wf_b c = true -> known_b c = false -> accepts c = true -> holds c.
 Proof.
-  destruct c as [E k obs]. unfold accepts. cbn [c_env c_load c_obs]. intros Hwf Hk Ha.
-  apply outcome_eqb_eq in Ha. subst obs. unfold holds. now apply model_holds.
+  destruct c as [E k obs]. unfold wf_b, known_b, accepts, holds, holds_b. cbn [c_env c_load c_obs].
+  intros Hwf Hk. apply forall2b_impl. intros i [j o]. unfold accepts1, load_ok. cbn [fst snd].
+  intro H. apply andb_true_iff in H as [H1 H2]. rewrite H1. cbn [andb].
+  apply outcome_eqb_eq in H2. subst o. now apply model_holds.
+Qed.
+
+(* every single load of a case satisfies the specification *)
+Lemma forall2b_zseq_nth {B} (f : Z -> B -> bool) : forall (m : list B) s n o,
+  forall2b f (zseq s (length m)) m = true -> nth_error m n = Some o ->
+  f (s + Z.of_nat n) o = true.
+Proof.
+  induction m as [|y m IH]; intros s n o F Hn; [destruct n; discriminate|].
+  cbn [length zseq forall2b] in F. apply andb_true_iff in F as [F1 F2].
+  destruct n as [|n]; cbn [nth_error] in Hn.
+  - injection Hn as <-. now replace (s + Z.of_nat 0) with s by lia.
+  - replace (s + Z.of_nat (S n)) with (s + 1 + Z.of_nat n) by lia. now apply IH.
+Qed.
+
+Lemma holds_every_load c n i o :
+  holds c -> nth_error (c_obs c) n = Some (i, o) ->
+  i = Z.of_nat n /\ holds1 (c_env c) (c_load c) o = true.
+Proof.
+  unfold holds, holds_b. intros H Hn.
+  pose proof (forall2b_zseq_nth _ _ 0 n (i, o) H Hn) as L. unfold load_ok in L. cbn [fst snd] in L.
+  apply andb_true_iff in L as [L1 L2]. apply Z.eqb_eq in L1. split; [lia|exact L2].
 Qed.
 
 (* ---- what [holds] says on raw observations ---------------------------------------------------------- *)
@@ -1174,8 +1205,8 @@ Proof.
     + now apply (IH m i a).
 Qed.
 
-Lemma holds_spec_ok c w : holds c -> c_obs c = OOk w -> spec_ok (c_env c) (c_load c) w = true.
-Proof. intros H Ho. unfold holds, holds_b in H. now rewrite Ho in H. Qed.
+Lemma holds_spec_ok E k w : holds1 E k (OOk w) = true -> spec_ok E k w = true.
+Proof. intro H. exact H. Qed.
 
 Lemma spec_ok_constr E k w :
   spec_ok E k w = true -> forall2b (check_constr E) (all_hdicts (steps_of k)) (o_constr w) = true.
@@ -1186,45 +1217,45 @@ Proof.
   now apply andb_true_iff in S as [S _].
 Qed.
 
-Lemma holds_constr c w j hd :
-  holds c -> c_obs c = OOk w -> nth_error (all_hdicts (steps_of (c_load c))) j = Some hd ->
-  exists k, nth_error (o_constr w) j = Some k /\ check_constr (c_env c) hd k = true.
+Lemma holds_constr E k w j hd :
+  holds1 E k (OOk w) = true -> nth_error (all_hdicts (steps_of k)) j = Some hd ->
+  exists kc, nth_error (o_constr w) j = Some kc /\ check_constr E hd kc = true.
 Proof.
-  intros H Ho Hn. pose proof (spec_ok_constr _ _ _ (holds_spec_ok c w H Ho)) as S.
+  intros H Hn. pose proof (spec_ok_constr _ _ _ (holds_spec_ok E k w H)) as S.
   exact (forall2b_nth _ _ _ _ _ S Hn).
 Qed.
 
-Lemma holds_counts c w :
-  holds c -> c_obs c = OOk w -> length (o_constr w) = length (all_hdicts (steps_of (c_load c))).
+Lemma holds_counts E k w :
+  holds1 E k (OOk w) = true -> length (o_constr w) = length (all_hdicts (steps_of k)).
 Proof.
-  intros H Ho. pose proof (spec_ok_constr _ _ _ (holds_spec_ok c w H Ho)) as S.
+  intros H. pose proof (spec_ok_constr _ _ _ (holds_spec_ok E k w H)) as S.
   symmetry. exact (forall2b_length _ _ _ S).
 Qed.
 
-Lemma holds_arg c w j h d i a v :
-  holds c -> c_obs c = OOk w -> nth_error (all_hdicts (steps_of (c_load c))) j = Some (h, d) ->
-  nth_error (optl (d_args d)) i = Some a -> expected (c_env c) h a = Exactly v ->
-  exists k, nth_error (o_constr w) j = Some k /\ nth_error (k_args k) i = Some v
-            /\ length (k_args k) = length (optl (d_args d)).
+Lemma holds_arg E k w j h d i a v :
+  holds1 E k (OOk w) = true -> nth_error (all_hdicts (steps_of k)) j = Some (h, d) ->
+  nth_error (optl (d_args d)) i = Some a -> expected E h a = Exactly v ->
+  exists kc, nth_error (o_constr w) j = Some kc /\ nth_error (k_args kc) i = Some v
+            /\ length (k_args kc) = length (optl (d_args d)).
 Proof.
-  intros H Ho Hd Ha Hs. destruct (holds_constr c w j (h, d) H Ho Hd) as [k [Hk C]].
-  exists k. split; [exact Hk|]. unfold check_constr in C.
-  destruct (slookup (d_type d) (c_ns (c_env c))); [|discriminate].
+  intros H Hd Ha Hs. destruct (holds_constr E k w j (h, d) H Hd) as [kc [Hk C]].
+  exists kc. split; [exact Hk|]. unfold check_constr in C.
+  destruct (slookup (d_type d) (c_ns E)); [|discriminate].
   apply andb_true_iff in C as [C _]. apply andb_true_iff in C as [_ C].
   destruct (forall2b_nth _ _ _ _ _ C Ha) as [o [Hn Hok]].
   unfold arg_ok in Hok. rewrite Hs in Hok. apply val_eqb_eq in Hok. subst o.
   split; [exact Hn|]. symmetry. exact (forall2b_length _ _ _ C).
 Qed.
 
-Lemma holds_kwarg c w j h d i key a v :
-  holds c -> c_obs c = OOk w -> nth_error (all_hdicts (steps_of (c_load c))) j = Some (h, d) ->
-  nth_error (optl (d_kwargs d)) i = Some (key, a) -> expected (c_env c) h a = Exactly v ->
-  exists k, nth_error (o_constr w) j = Some k /\ nth_error (k_kwargs k) i = Some (key, v)
-            /\ length (k_kwargs k) = length (optl (d_kwargs d)).
+Lemma holds_kwarg E k w j h d i key a v :
+  holds1 E k (OOk w) = true -> nth_error (all_hdicts (steps_of k)) j = Some (h, d) ->
+  nth_error (optl (d_kwargs d)) i = Some (key, a) -> expected E h a = Exactly v ->
+  exists kc, nth_error (o_constr w) j = Some kc /\ nth_error (k_kwargs kc) i = Some (key, v)
+            /\ length (k_kwargs kc) = length (optl (d_kwargs d)).
 Proof.
-  intros H Ho Hd Ha Hs. destruct (holds_constr c w j (h, d) H Ho Hd) as [k [Hk C]].
-  exists k. split; [exact Hk|]. unfold check_constr in C.
-  destruct (slookup (d_type d) (c_ns (c_env c))); [|discriminate].
+  intros H Hd Ha Hs. destruct (holds_constr E k w j (h, d) H Hd) as [kc [Hk C]].
+  exists kc. split; [exact Hk|]. unfold check_constr in C.
+  destruct (slookup (d_type d) (c_ns E)); [|discriminate].
   apply andb_true_iff in C as [_ C].
   destruct (forall2b_nth _ _ _ _ _ C Ha) as [[key' o] [Hn Hok]]. cbn [fst snd] in Hok.
   apply andb_true_iff in Hok as [Hkey Hok]. apply Z.eqb_eq in Hkey. subst key'.
@@ -1232,14 +1263,14 @@ Proof.
   split; [exact Hn|]. symmetry. exact (forall2b_length _ _ _ C).
 Qed.
 
-Lemma holds_world c w :
-  holds c -> c_obs c = OOk w ->
-  o_procs w = exp_procs (steps_of (c_load c)) 0 /\
-  o_enabled w = init_enabled (c_load c) /\
-  o_marks w = exp_marks (steps_of (c_load c)) /\
+Lemma holds_world E k w :
+  holds1 E k (OOk w) = true ->
+  o_procs w = exp_procs (steps_of k) 0 /\
+  o_enabled w = init_enabled k /\
+  o_marks w = exp_marks (steps_of k) /\
   NoDup (map fst (o_ents w)).
 Proof.
-  intros H Ho. pose proof (holds_spec_ok c w H Ho) as S. unfold spec_ok in S.
+  intros H. pose proof (holds_spec_ok E k w H) as S. unfold spec_ok in S.
   apply andb_true_iff in S as [S _]. apply andb_true_iff in S as [S S5].
   apply andb_true_iff in S as [S S4]. apply andb_true_iff in S as [S S3].
   apply andb_true_iff in S as [_ S2].
@@ -1247,21 +1278,21 @@ Proof.
   split; [now apply marks_eqb_eq|]. now apply vnodup_NoDup.
 Qed.
 
-Lemma holds_callbacks c w :
-  holds c -> c_obs c = OOk w ->
+Lemma holds_callbacks E k w :
+  holds1 E k (OOk w) = true ->
   exists table,
-    spec_items (c_env c) (flat_map step_items (steps_of (c_load c))) 0 (o_ents w) = Some table /\
+    spec_items E (flat_map step_items (steps_of k)) 0 (o_ents w) = Some table /\
     (forall x, In x table ->
-       cbs_of (fst x) (o_cbs w) = expected_cbs (via_handle (c_load c)) x) /\
+       cbs_of (fst x) (o_cbs w) = expected_cbs (via_handle k) x) /\
     (forall cb0, In cb0 (o_cbs w) -> exists x, In x table /\ fst x = cb_inst cb0).
 Proof.
-  intros H Ho. pose proof (holds_spec_ok c w H Ho) as S. unfold spec_ok in S.
+  intros H. pose proof (holds_spec_ok E k w H) as S. unfold spec_ok in S.
   apply andb_true_iff in S as [_ S].
   destruct (spec_items _ _ _ _) as [table|]; [|discriminate]. exists table. split; [reflexivity|].
   unfold cbs_ok in S. apply andb_true_iff in S as [S1 S2].
   rewrite forallb_forall in S1. rewrite forallb_forall in S2. split.
   - intros x Hx. exact (forall2b_eq _ cb_eqb_eq _ _ (S1 x Hx)).
-  - intros cb0 Hc. specialize (S2 cb0 Hc). apply existsb_exists in S2 as [x [Hx E]].
+  - intros cb0 Hc. specialize (S2 cb0 Hc). apply existsb_exists in S2 as [x [Hx Eq]].
     exists x. split; [exact Hx|now apply Z.eqb_eq].
 Qed.
 
@@ -1285,34 +1316,34 @@ Lemma custom_expected E ps a :
 Proof. exact (expected_fold E ps a). Qed.
 
 (* a file loaded by WorldFromFileHandle: the j-th described dict ... *)
-Lemma file_arg E ds obs w j d i a v :
-  holds (Case E (LFile ds) obs) -> obs = OOk w -> nth_error (all_dicts ds) j = Some d ->
+Lemma file_arg E ds w j d i a v :
+  holds1 E (LFile ds) (OOk w) = true -> nth_error (all_dicts ds) j = Some d ->
   nth_error (optl (d_args d)) i = Some a -> subst_spec E a = Exactly v ->
-  exists k, nth_error (o_constr w) j = Some k /\ nth_error (k_args k) i = Some v
-            /\ length (k_args k) = length (optl (d_args d)).
+  exists kc, nth_error (o_constr w) j = Some kc /\ nth_error (k_args kc) i = Some v
+            /\ length (k_args kc) = length (optl (d_args d)).
 Proof.
-  intros H Ho Hd Ha Hs.
-  apply (holds_arg (Case E (LFile ds) obs) w j (HFile default_passes) d i a v H Ho); try assumption.
-  cbn [c_load]. rewrite file_dicts. now rewrite nth_error_map, Hd.
+  intros H Hd Ha Hs.
+  apply (holds_arg E (LFile ds) w j (HFile default_passes) d i a v H); try assumption.
+  rewrite file_dicts. now rewrite nth_error_map, Hd.
 Qed.
 
-Lemma file_kwarg E ds obs w j d i key a v :
-  holds (Case E (LFile ds) obs) -> obs = OOk w -> nth_error (all_dicts ds) j = Some d ->
+Lemma file_kwarg E ds w j d i key a v :
+  holds1 E (LFile ds) (OOk w) = true -> nth_error (all_dicts ds) j = Some d ->
   nth_error (optl (d_kwargs d)) i = Some (key, a) -> subst_spec E a = Exactly v ->
-  exists k, nth_error (o_constr w) j = Some k /\ nth_error (k_kwargs k) i = Some (key, v)
-            /\ length (k_kwargs k) = length (optl (d_kwargs d)).
+  exists kc, nth_error (o_constr w) j = Some kc /\ nth_error (k_kwargs kc) i = Some (key, v)
+            /\ length (k_kwargs kc) = length (optl (d_kwargs d)).
 Proof.
-  intros H Ho Hd Ha Hs.
-  apply (holds_kwarg (Case E (LFile ds) obs) w j (HFile default_passes) d i key a v H Ho); try assumption.
-  cbn [c_load]. rewrite file_dicts. now rewrite nth_error_map, Hd.
+  intros H Hd Ha Hs.
+  apply (holds_kwarg E (LFile ds) w j (HFile default_passes) d i key a v H); try assumption.
+  rewrite file_dicts. now rewrite nth_error_map, Hd.
 Qed.
 
-Lemma file_world E ds obs w :
-  holds (Case E (LFile ds) obs) -> obs = OOk w ->
+Lemma file_world E ds w :
+  holds1 E (LFile ds) (OOk w) = true ->
   o_procs w = -1 :: -2 :: zseq 0 (length (proc_dicts ds)) /\ o_enabled w = false /\
   NoDup (map fst (o_ents w)).
 Proof.
-  intros H Ho. destruct (holds_world _ w H Ho) as [A [B [_ D]]]. cbn [c_load] in A, B.
+  intros H. destruct (holds_world _ _ w H) as [A [B [_ D]]].
   rewrite file_procs in A. auto.
 Qed.
 
